@@ -35,6 +35,13 @@ def main():
                          cwd=os.path.dirname(root), env=dict(os.environ, PYTHONHASHSEED='0'))
     assert out.returncode == 0, out.stderr
     assert out.stdout.strip().split('\n') == a, 'replay in a second process diverged'
+    try:
+        from .refconform import run as refrun
+        n, agree, mism, k = refrun()
+        print(f'reference decoders vs values the repository tests assert on recorded responses: {agree}/{n} pairs agree'
+              + (f'  WARNING: {len(mism)} disagree, e.g. {mism[0]}' if mism else ''))
+    except Exception as e:  # noqa: BLE001
+        print(f'reference decoder conformance not run: {type(e).__name__}: {e}')
     print('selftest ok: codec vectors, determinism (2 in-process + 1 cross-process replays x %d traces)' % len(cases))
     return 0 if ok else 1
 
